@@ -103,12 +103,14 @@ class PathState:
         self.start_lfmem = {}
         self.objgen = {}     # obj -> generation (bumped when a loop head havocs the whole object)
         self.resume = None   # (block, instruction position) when a path was forked in the middle of a block
+        self.mods = {}       # (width, repr) -> linear form whose truncation the symbol ("mod", width, repr) stands for
 
     def clone(self):
         p = PathState()
         p.lfmem = dict(self.lfmem)
         p.divs = dict(self.divs)
         p.objgen = dict(self.objgen)
+        p.mods = dict(self.mods)
         p.start_mem = self.start_mem
         p.start_lfmem = self.start_lfmem
         p.env = dict(self.env)
@@ -198,6 +200,12 @@ class Exec:
                     base = self.word(sa, w, p)
                     sh = cb.bit_length() - 1
                     return gf2.wlshr(base, sh) if syms[0] == qs else gf2.wand(base, gf2.const_word(cb - 1, w))
+        if len(syms) == 1 and v[syms[0]] == 1 and not v.get(1, 0) and isinstance(syms[0], tuple) and syms[0][0] == "mod" and p is not None:
+            src = p.mods.get((syms[0][1], syms[0][2]))
+            if src is not None:
+                base = self.word(src, max(w, 64), p)
+                if not any(b is gf2.TOP for b in base[:syms[0][1]]):
+                    return gf2.wzext(base[:syms[0][1]], w) if w >= syms[0][1] else base[:w]
         return [gf2.TOP] * w
 
     @staticmethod
@@ -971,6 +979,7 @@ class Exec:
                     p.env[k] = a
                 else:
                     p.events.append(("narrowing", I.id, w, repr(self.subst(p, a))))
+                    p.mods[(w, repr(self.subst(p, a)))] = self.subst(p, a)
                     p.env[k] = Lf.s(("mod", w, repr(self.subst(p, a))))
             else:
                 p.env[k] = a
